@@ -115,11 +115,33 @@ func (c *Controller) ReleaseOne(point string, i int) bool {
 	return true
 }
 
+// wakePeriodically broadcasts on the condition every few milliseconds until the returned function is called, so
+// that a waiter re-checks its deadline. (A single timer armed for the whole duration can fire while the waiter's own
+// clock reading is still before the deadline — the goroutine was descheduled between the two — and then nothing wakes
+// the waiter again.)
+func (c *Controller) wakePeriodically() (stop func()) {
+	done := make(chan struct{})
+	go func() {
+		tk := time.NewTicker(5 * time.Millisecond)
+		defer tk.Stop()
+		for {
+			select {
+			case <-done:
+				return
+			case <-tk.C:
+				c.mu.Lock()
+				c.cond.Broadcast()
+				c.mu.Unlock()
+			}
+		}
+	}()
+	return func() { close(done) }
+}
+
 // AwaitWaiting blocks until n goroutines wait at the point (or d elapsed); it returns the number waiting.
 func (c *Controller) AwaitWaiting(point string, n int, d time.Duration) int {
-	t := time.AfterFunc(d, func() { c.mu.Lock(); c.cond.Broadcast(); c.mu.Unlock() })
-	defer t.Stop()
 	deadline := time.Now().Add(d)
+	defer c.wakePeriodically()()
 	c.mu.Lock()
 	defer c.mu.Unlock()
 	for len(c.waiting[point]) < n && time.Now().Before(deadline) {
@@ -130,9 +152,8 @@ func (c *Controller) AwaitWaiting(point string, n int, d time.Duration) int {
 
 // AwaitHits blocks until the point was hit n times in total (or d elapsed); returns the count.
 func (c *Controller) AwaitHits(point string, n int, d time.Duration) int {
-	t := time.AfterFunc(d, func() { c.mu.Lock(); c.cond.Broadcast(); c.mu.Unlock() })
-	defer t.Stop()
 	deadline := time.Now().Add(d)
+	defer c.wakePeriodically()()
 	c.mu.Lock()
 	defer c.mu.Unlock()
 	for c.counts[point] < n && time.Now().Before(deadline) {
